@@ -51,7 +51,7 @@ def closedness_problems(routine_ops, routine_infos, named_coroutines):
             tn = type(op).__name__
             if tn != "SsbOperation":
                 probs.append(f"internal pseudo operation {tn} remains")
-            if op.op_code.name.startswith("ES_"):
+            if op.op_code.name.startswith(("ES_LABEL<", "ES_JUMP<", "ES_FOREIGN<", "ES_OR_MULTI_IF")):
                 probs.append(f"internal opcode {op.op_code.name} remains")
             if op.offset in seen:
                 probs.append(f"offset {op.offset} used twice (routines {seen[op.offset]} and {ri})")
@@ -70,9 +70,6 @@ def closedness_problems(routine_ops, routine_infos, named_coroutines):
                     probs.append(f"{name}@{op.offset}: target {t} is not the offset of an op of the result")
                 elif len(op.params) - 1 != JUMP_IDX[name]:
                     probs.append(f"{name}@{op.offset}: {len(op.params)} parameters, target is not at the canonical index")
-    for ri, inf in enumerate(routine_infos):
-        if inf is None:
-            probs.append(f"routine info {ri} is None")
     return probs
 
 
